@@ -56,7 +56,11 @@ func EncryptHeader(
 		PAXRecords: map[string]string{},
 	}
 
-	wrappedHeader, err := json.Marshal(hdr)
+	// JSON encodes times as RFC 3339, which has no room for the seconds of a zone offset (i.e. `+00:19:32`, a local mean time); embed the instants in UTC
+	embeddedHdr := *hdr
+	embeddedHdr.ModTime, embeddedHdr.AccessTime, embeddedHdr.ChangeTime = hdr.ModTime.UTC(), hdr.AccessTime.UTC(), hdr.ChangeTime.UTC()
+
+	wrappedHeader, err := json.Marshal(&embeddedHdr)
 	if err != nil {
 		return err
 	}
